@@ -129,7 +129,12 @@ def quant_text(lo, hi, rng=None):
     a = str(lo)
     if lo == 0 and rng is not None and rng.random() < 0.5:
         a = ""
-    return "{" + a + "," + ("" if hi is None else str(hi)) + "}"
+    b = "" if hi is None else str(hi)
+    if rng is not None and rng.random() < 0.25:
+        # blanks inside the braces, also in the place of an omitted bound ("{ ,2}", "{1, }", "{ , }")
+        pad = lambda t: rng.choice(["", " ", "\t", "  "]) + t + rng.choice(["", " ", " "])     # noqa: E731
+        a, b = pad(a), pad(b)
+    return "{" + a + "," + b + "}"
 
 
 def to_tokens(r, level=1, redundant=0.0, rng=None):
